@@ -90,10 +90,13 @@ def dump_hists(module, cfg, rng, limit, **kw):
 
 # ------------------------------------------------------------------------------------------
 # scripts
-def upload_script(h, settle=True, flip=[0]):
+def upload_script(h, settle=True, flip=[0], stagger=False):
     cfg = h[0]
-    lines = ["reset mode=up peers=2 chunks=3 maxpar=%d perpeer=%d uto=%d recon=0" % (cfg["maxpar"], cfg["perpeer"], UPLOAD["timeout"]),
-             "peer p=1", "peer p=2", "store c=1 ttl=3600", "store c=2 ttl=%d" % UPLOAD["mortal_life"]]
+    if stagger:    # MC_Uploads_stagger.cfg: one peer, four immortal chunks, per-peer limit 2, time-out 3
+        lines = ["reset mode=up peers=1 chunks=4 maxpar=%d perpeer=%d uto=3 recon=0" % (cfg["maxpar"], cfg["perpeer"]), "peer p=1"] + ["store c=%d ttl=3600" % c for c in (1, 2, 3, 4)]
+    else:
+        lines = ["reset mode=up peers=2 chunks=3 maxpar=%d perpeer=%d uto=%d recon=0" % (cfg["maxpar"], cfg["perpeer"], UPLOAD["timeout"]),
+                 "peer p=1", "peer p=2", "store c=1 ttl=3600", "store c=2 ttl=%d" % UPLOAD["mortal_life"]]
     for a in h[1:]:
         op = a["op"]
         if op == "req":
@@ -108,8 +111,50 @@ def upload_script(h, settle=True, flip=[0]):
         elif op == "unlink":
             lines.append("link p=%d up=0" % a["p"])
     if settle:
-        lines += ["tick", "adv ms=%d" % ((UPLOAD["timeout"] + 1) * TICK_MS), "tick"]
+        lines += ["tick", "adv ms=%d" % ((UPLOAD["timeout"] + 2) * TICK_MS), "tick"]
     return lines
+
+
+def stagger_upload_behaviours(rng, n):
+    """directed family: one peer keeps several uploads of different ages in flight; the clock stops where only the older ones have reached
+    the time-out, the scheduler runs (tick / request / ack), and the peer asks for more -- the per-peer limit must count the younger ones"""
+    out = []
+    for _ in range(n):
+        per, uto, chunks = rng.choice([2, 2, 3]), rng.choice([2, 3, 4]), 8
+        lines = ["reset mode=up peers=%d chunks=%d maxpar=%d perpeer=%d uto=%d recon=%d" % (rng.choice([1, 2]), chunks, rng.choice([0, 0, per + 2, 6]), per, uto, rng.choice([0, 0, 1])), "peer p=1"]
+        if "peers=2" in lines[0]:
+            lines.append("peer p=2")
+        lines += ["store c=%d ttl=3600" % c for c in range(1, chunks + 1)]
+        free = list(range(1, chunks + 1))
+        rng.shuffle(free)
+        started = []        # (chunk, start ms)
+        now = 0
+        for _ in range(per):
+            c = free.pop()
+            lines.append("req p=1 c=%d" % c)
+            started.append((c, now))
+            d = rng.choice([300, 700, 1000, 1500])
+            now += d
+            lines.append("adv ms=%d" % d)
+        # stop the clock where the oldest has timed out and the youngest has not
+        oldest, youngest = started[0][1], started[-1][1]
+        lo, hi = oldest + uto * 1000, youngest + uto * 1000 - 1
+        if hi > max(lo, now):
+            t = rng.randint(max(lo, now), hi)
+            lines.append("adv ms=%d" % (t - now))
+            now = t
+        lines.append(rng.choice(["tick", "tick", "req p=1 c=%d" % free.pop(), "ack p=1 c=%d ok=1" % started[0][0]]))
+        for _ in range(rng.randint(2, 4)):
+            if free:
+                lines.append("req p=1 c=%d" % free.pop())
+            if rng.random() < 0.3:
+                lines.append("tick")
+        for c, _ in started[1:]:
+            if rng.random() < 0.5:
+                lines.append("ack p=1 c=%d ok=1" % c)
+        lines += ["tick", "adv ms=%d" % ((uto + 1) * 1000 + 1), "tick"]
+        out.append(lines)
+    return out
 
 
 UPLOAD_EXT = ["req p=1 c=1", "req p=1 c=2", "req p=2 c=1", "req p=2 c=3", "ack p=1 c=1 ok=1", "ack p=2 c=1 ok=0", "tick", "adv ms=1000", "adv ms=2000", "link p=2 up=0"]
@@ -378,19 +423,32 @@ def uploads_models(chk):
     live(chk, "Uploads", "MC_Uploads_live.cfg")
     if thorough:
         live(chk, "Uploads", "MC_Uploads_dev_dupcounts_live.cfg", expect_violation=True)
-    log("[gen] %d TLC states, %d state-cover sequences replayed" % (nstates, len(hists)))
-    return hists
+    r2, hists2, n2 = dump_hists("Uploads", "MC_Uploads_stagger.cfg", rng, 6000 if thorough else 1200, workers=8, timeout=900, heap="6g")
+    chk.add_model("Uploads design=>contract (MC_Uploads_stagger.cfg: one peer, 4 chunks, per-peer limit 2, time-out 3: uploads of different ages)", r2,
+                  "invariants TypeOK C23_Limits C23_Nak C23_SlotsReleased D_CounterIsMapSize")
+    for h in hists2:
+        h[0]["stagger"] = True
+    log("[gen] %d TLC states, %d state-cover sequences replayed (+ %d states, %d sequences of the staggered-age model)" % (nstates, len(hists), n2, len(hists2)))
+    return hists + hists2
 
 
 def uploads_traces(chk, hists):
     thorough = chk.tier == "thorough"
     rng = chk.rng
     ext = []
+    stag = [h for h in hists if h[0].get("stagger")]
+    hists = [h for h in hists if not h[0].get("stagger")]
+    stag_scripts = [upload_script(h, stagger=True) for h in stag]
+    for h in rng.sample(stag, min(len(stag), 600 if thorough else 150)):     # two further requests after every sampled state
+        base = upload_script(h, settle=False, stagger=True)
+        a, b = rng.sample([1, 2, 3, 4], 2)
+        stag_scripts.append(base + ["req p=1 c=%d" % a, "req p=1 c=%d" % b, "tick", "adv ms=4001", "tick"])
     for h in rng.sample(hists, min(len(hists), 800 if thorough else 150)):
         base = upload_script(h, settle=False)
         for a in UPLOAD_EXT:
             ext.append(base + [a, "tick", "adv ms=%d" % ((UPLOAD["timeout"] + 1) * TICK_MS), "tick"])
     res = run_and_validate(chk, UPLOAD, [("tlc-state-cover", [upload_script(h) for h in hists]), ("tlc-transition-cover", ext),
+                                         ("tlc-staggered-ages", stag_scripts), ("directed-partial-timeout", stagger_upload_behaviours(rng, 1500 if thorough else 300)),
                                          ("random", random_upload_behaviours(rng, 3000 if thorough else 500))])
     stats = [res["stats"]]
     if not chk.viol:
